@@ -12,6 +12,9 @@ Enumerates (exhaustively, smallest first)
   * 2.x `when` statements whose case is an or-group with every small control-flow block as case / else body,
   * every generated 2.x program on each way a flow reaches `State.flow_configs`: the configuration, a further
     `initialize_state` on the same flow configs, and `AddFlowsAction` on a running state,
+  * the edge of the accepted 2.x language: operator x kind of operand x group shape x statement form (whether or
+    not an expansion rule supports the combination) and the bare loop exits, in every nesting context - each program
+    is either rejected by the loader or compiled into a closed flow,
 and model-checks each compiled flow: explicit-state exploration of its control-flow graph
 (vf/props/c12_cfg.py).  The abstraction is bound to the implementation by running the
 generated 2.x programs on the real interpreter with a logging wrapper around the
@@ -21,6 +24,7 @@ from __future__ import annotations
 
 import json
 import os
+import re
 import time
 import warnings
 
@@ -45,12 +49,12 @@ TIERS = {
     "quick": dict(
         v2_bound=5, v2_dyn_all=5, v2_dyn_stride={}, v1_bound=6, kmax=3,
         rich_dyn=True, pairs=False, files_stride=1, depth=4, max_steps=120, budget_s=70,
-        goto_len=5, whenor_body=2, paths_stride={},
+        goto_len=5, whenor_body=2, paths_stride={}, edge_kmax=2,
     ),
     "thorough": dict(
         v2_bound=7, v2_dyn_all=5, v2_dyn_stride={6: 16, 7: 256}, v1_bound=7, kmax=4,
         rich_dyn=True, pairs=True, files_stride=1, depth=5, max_steps=400, budget_s=17 * 60,
-        goto_len=6, whenor_body=3, paths_stride={7: 8},
+        goto_len=6, whenor_body=3, paths_stride={7: 8}, edge_kmax=3,
     ),
 }
 CHUNK = 400
@@ -252,6 +256,9 @@ def check_v2_state(acc, st, origin, source, size, dyn=None, skip_helpers=True, f
         acc.add("cfg_edges", len(cfg.edges))
         acc.add("v2_elements", cfg.n)
         acc.add("v2_ignored_elements", cfg.ignored)
+        if cfg.loop_exits_no_label:
+            acc.add("v2_flows_with_loop_exit_outside_of_a_loop")
+            acc.add("v2_loop_exits_without_label_outside_of_a_loop", cfg.loop_exits_no_label)
         acc.c["max_cfg_states_per_flow"] = max(acc.c.get("max_cfg_states_per_flow", 0), len(cfg.states))
         if cfg.capped:
             acc.add("cfg_state_cap_hit")
@@ -290,6 +297,9 @@ def check_v2_state(acc, st, origin, source, size, dyn=None, skip_helpers=True, f
     return cfgs
 
 
+_LINE_NO = re.compile(r"line \d+")
+
+
 def do_v2_program(acc, source, origin, size, dyn, paths=True):
     acc.add("v2_programs_generated")
     try:
@@ -297,9 +307,9 @@ def do_v2_program(acc, source, origin, size, dyn, paths=True):
         st = compile_v2(flows=flows)
     except Exception as ex:  # loader refuses the program: outside the property
         acc.add("v2_programs_rejected_by_loader")
-        key = f"{type(ex).__name__}: {str(ex)[:70]}"
+        key = f"{type(ex).__name__}: {_LINE_NO.sub('line N', str(ex))[:70]}"
         acc.reject.setdefault(key, source)
-        return
+        return False
     acc.add("v2_programs_checked")
     cfgs = check_v2_state(acc, st, origin, source, size, dyn)
     if paths:
@@ -312,9 +322,10 @@ def do_v2_program(acc, source, origin, size, dyn, paths=True):
         except Exception as ex:
             acc.violation("v2:second-compilation-raised", f"[{origin}] compiling the same parsed flows a second time raised {type(ex).__name__}: {str(ex)[:120]}",
                           {"kind": "v2", "origin": origin, "source": source, "file": None, "flow": None, "detail": {"second_compilation": True}, "size": size})
-            return
+            return True
         acc.add("v2_programs_compiled_twice")
         check_v2_state(acc, st2, origin + ":second-compilation", source, size, None)
+    return True
 
 
 def do_v1_flows(acc, flows, origin, source, size, file_rel=None):
@@ -437,6 +448,15 @@ def whenor(max_body):
     return _WHENOR_CACHE[max_body]
 
 
+_EDGE_CACHE = {}
+
+
+def edge(kmax):
+    if kmax not in _EDGE_CACHE:
+        _EDGE_CACHE[kmax] = gen.edge_statements(kmax)
+    return _EDGE_CACHE[kmax]
+
+
 def task_dyn(key):
     # the interpreter binding for the 3-branch groups that end the flow or sit in a loop
     return {"depth": 4, "max_steps": 150} if key[0] == 3 and max(key[1]) <= 2 else None
@@ -505,6 +525,17 @@ def work(task):
             # interpreter binding for the one-case forms (the case body is emitted once per or-group there too)
             do_v2_program(acc, src, "v2whenor:" + ":".join(str(x) for x in key), key[1] + 2,
                           dynp if not key[4] else None)
+    elif kind == "v2edge":
+        _, kmax, ctx, lo, hi, dynp = task
+        es = edge(kmax)
+        for i in range(lo, hi):
+            sid, lines, meta = es[i]
+            acc.add("v2_edge_programs")
+            # interpreter binding for the bare loop exits (the other accepted statements are those of the rich family)
+            ok = do_v2_program(acc, gen.in_context_v2(ctx, lines), f"v2edge:{ctx}:{sid}", len(lines) + 2,
+                               dynp if meta["op"] == "loop-exit" else None)
+            acc.add(f"v2_edge_{'accepted' if ok else 'rejected'}__{meta['op']}")
+            acc.add("v2_edge_programs_accepted_and_checked" if ok else "v2_edge_programs_rejected_by_loader")
     elif kind == "file":
         do_file(acc, task[1])
     else:
@@ -525,6 +556,10 @@ def tasks(tier):
     # the curated programs are few: longer histories (two loop iterations)
     out = [("v2cur", {"depth": max(6, t["depth"]), "max_steps": 1500}), ("v1rich",)]
     out += [("whenfam", "1.0", 3 if tier == "quick" else 4, 3), ("whenfam", "2.x", 3 if tier == "quick" else 4, 3 if tier == "quick" else 2)]
+    me = len(edge(t["edge_kmax"]))
+    for ctx in gen.V2_CONTEXTS:
+        for lo, hi in _chunks(me, 64):
+            out.append(("v2edge", t["edge_kmax"], ctx, lo, hi, dynp))
     files = F.all_co_files()
     for i, rel in enumerate(files):
         if i % t["files_stride"] == 0:
@@ -565,7 +600,12 @@ def run(rep, tier):
     if rep.seed:
         import random
         # the seed only perturbs the order in which chunks are handed to the workers
-        head, tail = tk[:2], tk[2:]
+        # (the small families at the front - curated, 1.0 rich, when families, edge family - stay there, so that a
+        # time cap under load drops the same kind of chunk for every seed)
+        nh = 0
+        while nh < len(tk) and tk[nh][0] in ("v2cur", "v1rich", "whenfam", "v2edge"):
+            nh += 1
+        head, tail = tk[:nh], tk[nh:]
         random.Random(rep.seed).shuffle(tail)
         tk = head + tail
     deadline = time.time() + t["budget_s"]
@@ -626,7 +666,8 @@ def run(rep, tier):
         "shipped_files_skipped_rejected_by_loader": rep.cov.get("files_skipped_rejected_by_loader", 0),
     })
     rep.set("bounds", {k: t[k] for k in ("v2_bound", "v1_bound", "kmax", "v2_dyn_all", "v2_dyn_stride",
-                                          "depth", "max_steps", "pairs", "goto_len", "whenor_body", "paths_stride")})
+                                          "depth", "max_steps", "pairs", "goto_len", "whenor_body", "paths_stride",
+                                          "edge_kmax")})
     rep.set("loader_rejections", {k: (v if len(str(v)) < 300 else str(v)[:300]) for k, v in
                                   sorted(rejects.items())[:40]})
     rep.set("violation_occurrences_by_signature", per_sig)
@@ -644,6 +685,18 @@ def run(rep, tier):
         f"checkpoint, before or after it, any number of gotos per checkpoint) in each of {len(gen.GOTO_CONTEXTS)} contexts",
         f"2.x `when` whose case is an or-group (4 group specs x one/two cases x with/without else) with every block of "
         f"the control grammar of <= {t['whenor_body']} nodes as case body and as else body, at top level and in a loop",
+        f"2.x edge of the accepted language: every statement {{match | await | start | stop | activate | deactivate | send}} "
+        f"x operand kind {{event | flow | action | variable reference | flow member event | reference member event}} x "
+        f"group shape (all and/or trees of <= {t['edge_kmax']} leaves) as a statement and as the right side of an assignment, "
+        "the same operands without an operator and as the case of a `when` / `or when`, and the bare loop exits (break, "
+        f"continue, under an if), each in the {len(gen.V2_CONTEXTS)} nesting contexts - whether or not an expansion rule "
+        "supports the combination. Oracle: the loader rejects the program (counted per operator), or every compiled "
+        "flow is closed on all three loader paths",
+        "`break` / `continue` outside of every loop compile to Break / Continue(label=None): a loop exit that names no "
+        "target (nothing to point outside the flow); `slide` steps over it to the next element, which is an edge of the "
+        "graph (counted: v2_loop_exits_without_label_outside_of_a_loop; the interpreter's step over it is bound by "
+        "dyn_moves_over_loop_exit_without_label). Inside a while loop a label-less loop exit is a violation "
+        "(v2:loop-exit-unresolved)",
         "loader paths (2.x), every generated program (control grammar sizes in bounds.paths_stride: every k-th) on all three: (a) configuration (flow list -> flow configs -> "
         "initialize_state), (b) initialize_state once more on the same flow configs (what the runtime does for every "
         "further state), (c) every flow of the program loaded into a running state with RuntimeV2_x._add_flows_action "
@@ -688,6 +741,15 @@ def replay(rp):
     if kind in ("v2", "v2dyn"):
         path = rp.get("path")
         flow_id = rp["flow"]
+        if rp.get("source") is not None:
+            # "rejected by the loader or compiled into a closed flow" (edge family): a rejection is a pass
+            try:
+                compile_v2(rp["source"])
+            except Exception as ex:
+                print("program:\n" + rp["source"])
+                print("expected: the loader rejects the program, or every compiled flow is closed")
+                print(f"observed: the loader rejects it ({type(ex).__name__}: {str(ex)[:160]})")
+                return 0
         if rp.get("source") is not None and path == "added":
             print("program (every flow loaded with AddFlowsAction into a running state, main renamed to "
                   f"`{ADDED_MAIN}`):\n" + rp["source"])
